@@ -215,6 +215,147 @@ def p_terminated(it, ctx, callee, args):
 
 
 # ------------------------------------------------------------------------------------------
+# variant "marking": the real MarkingTask::{run, pop, trace, defensive_push} drive the protocol
+
+def addr(v=8):
+    return Tup((Int(v, "usize"),), name="Address")
+
+
+def opt_addr(b):
+    """Bool term -> Option<Address> needs a concrete variant: callers branch first"""
+    from ..mir.models import some, NONE
+    return some(addr()) if b else NONE
+
+
+def _taken(it, ctx, path, what):
+    r = take(it, ctx, path, what)
+    ok = z3.is_true(z3.simplify(r))
+    if ok:
+        me = it.thread
+        pset(it, (4, me), z3.BoolVal(True))
+        pset(it, (6,), cnt(pget(it, 6).t + 1))
+    return opt_addr(ok)
+
+
+def hk_pop_local(it, ctx, fn, args):
+    me = it.thread
+    pset(it, (4, me), z3.BoolVal(False))         # the previous item (if any) is finished
+    return _taken(it, ctx, (0, me), "pop from local segment")
+
+
+def hk_pop_worker(it, ctx, fn, args):
+    return _taken(it, ctx, (1, it.thread), "pop from own deque")
+
+
+def hk_pop_global(it, ctx, fn, args):
+    return _taken(it, ctx, (2,), "pop from injector")
+
+
+def hk_steal(it, ctx, fn, args):
+    r = p_steal(it, ctx, "steal", [Int(it.thread, "usize")])
+    ok = z3.is_true(z3.simplify(r))
+    if ok:
+        pset(it, (4, it.thread), z3.BoolVal(True))
+        pset(it, (6,), cnt(pget(it, 6).t + 1))
+    return opt_addr(ok)
+
+
+def hk_try_mark(it, ctx, fn, args):
+    # the field's target may already be marked (by this or another worker): adversarial
+    ch = CM.take_choice(ctx, it)
+    if ctx.branch((ch & 1) == 1):
+        pset(it, (7,), cnt(pget(it, 7).t + 1))
+        return z3.BoolVal(True)
+    return z3.BoolVal(False)
+
+
+def hk_has_capacity(it, ctx, fn, args):
+    ch = CM.take_choice(ctx, it)
+    return (ch & 1) == 1
+
+
+def hk_seg_push(it, ctx, fn, args):
+    return p_push_local(it, ctx, "push", [Int(it.thread, "usize")])
+
+
+def hk_worker_push(it, ctx, callee, args):
+    return p_push_worker(it, ctx, "push", [Int(it.thread, "usize")])
+
+
+@pm("verif_child_exists")
+def p_child_exists(it, ctx, callee, args):
+    b = pget(it, 3)
+    if not ctx.branch(b.t != 0):
+        return z3.BoolVal(False)
+    ch = CM.take_choice(ctx, it)
+    if ctx.branch((ch & 1) == 0):
+        return z3.BoolVal(False)
+    pset(it, (3,), cnt(b.t - 1))
+    return z3.BoolVal(True)
+
+
+@pm("verif_slot")
+def p_slot(it, ctx, callee, args):
+    from ..mir.interp import Opaque
+    return Opaque("slot")
+
+
+MARKING_PRIVATE = ("MarkingTask::pop_local", "Segment::push", "Segment::has_capacity", "Header::try_mark", "verif_slot")
+MARKING_VISIBLE = ("MarkingTask::pop_worker", "MarkingTask::pop_global", "MarkingTask::steal", "Worker::push", "verif_child_exists")
+
+
+def visible_marking(callee):
+    c = callee
+    if c in MARKING_PRIVATE or c.split("::")[-1] in ("verif_slot",):
+        return False
+    if c in MARKING_VISIBLE:
+        return True
+    return visible(callee)
+
+
+def build_system_marking(rt_prog, drv_prog, nworkers, budget, initial):
+    from ..mir.structs import Layouts
+    from ..mir.interp import Opaque
+    models = list(POOL_MODELS) + CM.all_models()
+    models.insert(0, (__import__("re").compile(r"(crossbeam_deque::)?(deque::)?Worker::push"), hk_worker_push))
+    sysm = B.System([rt_prog, drv_prog], models, visible_marking, nworkers)
+    term = Tup((Int(nworkers, "usize"), CM.mk_atomic(Int(nworkers, "usize")), CM.mk_atomic(Int(0, "usize")),
+                CM.mk_mutex(), CM.mk_condvar(1)), name="Terminator")
+    sysm.add_root("term", term)
+    sysm.add_root("sched", Tup([Int(0, "u8") for _ in range(nworkers)]))
+    pool = Tup((Tup([cnt(0) for _ in range(nworkers)]), Tup([cnt(0) for _ in range(nworkers)]), cnt(initial), cnt(budget),
+                Tup([z3.BoolVal(False) for _ in range(nworkers)]), z3.BoolVal(False), cnt(0), cnt(initial)), name="Pool")
+    sysm.add_root("pool", pool)
+    L = Layouts(common.REPO)
+    MK = "dora-runtime/src/gc/swiper/marking.rs"
+    unit = lambda v: (lambda it, ctx, fn, args: v)
+    sysm.hooks = {
+        "MarkingTask::pop_local": hk_pop_local, "MarkingTask::pop_worker": hk_pop_worker, "MarkingTask::pop_global": hk_pop_global,
+        "MarkingTask::steal": hk_steal,
+        "Address::to_obj": unit(Opaque("obj")), "Region::start": unit(addr(0)), "Address::offset_from": unit(Int(0, "usize")),
+        "Object::size": unit(Int(8, "usize")), "Slot::get": unit(addr(8)), "Region::contains": unit(z3.BoolVal(True)),
+        "Object::header": unit(Opaque("header")), "Header::try_mark": hk_try_mark,
+        "Segment::has_capacity": hk_has_capacity, "Segment::push": hk_seg_push,
+    }
+    for h in sysm.hooks:
+        if rt_prog.find(h) is None:
+            raise Inconclusive("hook target %s not found in the MIR dump" % h)
+    sysm.redirects = {"Object::visit_reference_fields": "drv_c12_visit_fields"}
+    if rt_prog.find("Object::visit_reference_fields") is None or rt_prog.find("MarkingTask::run") is None:
+        raise Inconclusive("MarkingTask::run / Object::visit_reference_fields not found in the MIR dump")
+    worker = drv_prog.find("drv_c12_marking_worker")
+    if worker is None:
+        raise Inconclusive("driver drv_c12_marking_worker missing")
+    for t in range(nworkers):
+        res = L.make(MK, "MarkingResult", marked_bytes=Int(0, "usize"), live_pages=Opaque("bitset"))
+        task = L.make(MK, "MarkingTask", task_id=Int(t, "usize"), local=Opaque("segment"), worker=Opaque("worker"),
+                      injector=Opaque("injector"), stealers=Opaque("stealers"), terminator=sysm.root_ref("term"),
+                      heap_region=Opaque("region"), perm_region=Opaque("region"), page_size_bits=Int(12, "u32"),
+                      marked_since_share=Int(0, "usize"), shape_base=addr(0), result=res)
+        sysm.add_root("task%d" % t, task)
+        sysm.add_thread(worker, [sysm.root_ref("task%d" % t), Int(t, "usize")])
+    return sysm
+
 
 def load_progs():
     rt = P.parse_file(common.mir_dump("dora-runtime"), common.REPO)
@@ -229,10 +370,10 @@ def svar(sysm, tag, idx):
     return "S!%s!%d" % (tag, idx)
 
 
-def run_config(rt, drv, N, budget, initial, K, tmo, deadline, qjobs=1):
+def run_config(rt, drv, N, budget, initial, K, tmo, deadline, qjobs=1, variant="driver"):
     """returns dict with verdicts; raises Inconclusive"""
     t0 = time.time()
-    sysm = build_system(rt, drv, N, budget, initial)
+    sysm = (build_system_marking if variant == "marking" else build_system)(rt, drv, N, budget, initial)
     sysm.build(deadline)
     nn = sum(len(n) for n, e in sysm.cfa)
     ne = sum(len(e) for n, e in sysm.cfa)
